@@ -2,7 +2,7 @@
 From Coq Require Import List NArith ZArith Bool String.
 From Coq Require Import Strings.Byte.
 From NfpmV Require Import Lib.Bytes Model.Content Model.Meta Model.Version Model.VerCmp Spec.C14.
-From NfpmV Require Import Proofs.C14Proofs Proofs.C14Rpm.
+From NfpmV Require Import Proofs.C14Proofs Proofs.C14Rpm Proofs.C14Num.
 Import ListNotations.
 Open Scope string_scope.
 Open Scope list_scope.
@@ -46,6 +46,31 @@ Print Assumptions C14_rpm_versions_prerelease_lt_release.
 
 Example C14_rpm_release_tails : release_tail [] /\ release_tail (B "+git.5").
 Proof. split; [exact release_tail_nil|apply release_tail_plus; reflexivity]. Qed.
+
+(* digit runs are compared by VALUE - any number of digits, any leading zeros - by dpkg and by rpm alike *)
+Theorem C14_digit_runs_compare_numerically : forall a b, forallb is_digit a = true -> forallb is_digit b = true ->
+  cmp_digit_runs (strip0 a) (strip0 b) = N.compare (val a) (val b).
+Proof. exact cmp_digit_runs_numeric. Qed.
+Print Assumptions C14_digit_runs_compare_numerically.
+
+(* a different major.minor.patch orders numerically: for ALL digit strings *)
+Theorem C14_dpkg_triples_order_numerically : forall d1 e1 f1 d2 e2 f2 fuel,
+  forallb is_digit d1 = true -> forallb is_digit e1 = true -> forallb is_digit f1 = true ->
+  forallb is_digit d2 = true -> forallb is_digit e2 = true -> forallb is_digit f2 = true ->
+  d1 <> [] -> e1 <> [] -> f1 <> [] -> d2 <> [] -> e2 <> [] -> f2 <> [] -> 4 <= fuel ->
+  verrevcmp fuel (d1 ++ dotb :: e1 ++ dotb :: f1) (d2 ++ dotb :: e2 ++ dotb :: f2) =
+  Some (triple_cmp (val d1) (val e1) (val f1) (val d2) (val e2) (val f2)).
+Proof. exact dpkg_triples_numeric. Qed.
+Print Assumptions C14_dpkg_triples_order_numerically.
+
+Theorem C14_rpm_triples_order_numerically : forall d1 e1 f1 d2 e2 f2 fuel,
+  forallb is_digit d1 = true -> forallb is_digit e1 = true -> forallb is_digit f1 = true ->
+  forallb is_digit d2 = true -> forallb is_digit e2 = true -> forallb is_digit f2 = true ->
+  d1 <> [] -> e1 <> [] -> f1 <> [] -> d2 <> [] -> e2 <> [] -> f2 <> [] -> 4 <= fuel ->
+  rpmvercmp fuel (d1 ++ dotb :: e1 ++ dotb :: f1) (d2 ++ dotb :: e2 ++ dotb :: f2) =
+  Some (triple_cmp (val d1) (val e1) (val f1) (val d2) (val e2) (val f2)).
+Proof. exact rpm_triples_numeric. Qed.
+Print Assumptions C14_rpm_triples_order_numerically.
 
 (* any higher epoch sorts after any lower one, whatever follows *)
 Theorem C14_dpkg_epoch_dominates : forall v w e1 u1 r1 e2 u2 r2,
